@@ -137,7 +137,117 @@ def _inline_return_temps(fn: ast.FunctionDef):
     fn.body = fix(fn.body)
 
 
-def canonicalise(tree: ast.Module) -> ast.Module:
+def _functions(tree):
+    """[(qualname, FunctionDef)] in source order; methods as Class.method, nested functions as outer.<locals>.inner"""
+    out = []
+
+    def go(body, prefix):
+        for st in body:
+            if isinstance(st, ast.ClassDef):
+                go(st.body, prefix + st.name + ".")
+            elif isinstance(st, (ast.FunctionDef, ast.AsyncFunctionDef)):
+                out.append((prefix + st.name, st))
+                go(st.body, prefix + st.name + ".<locals>.")
+            else:
+                for fld in ("body", "orelse", "finalbody"):
+                    sub = getattr(st, fld, None)
+                    if isinstance(sub, list) and not isinstance(st, (ast.ClassDef, ast.FunctionDef)):
+                        go([x for x in sub if isinstance(x, ast.stmt)], prefix)
+
+    go(tree.body, "")
+    return out
+
+
+def _own_nodes(fn):
+    """nodes of fn that belong to fn itself (not to nested functions / classes / lambdas)"""
+    stack = list(ast.iter_child_nodes(fn))
+    while stack:
+        n = stack.pop()
+        yield n
+        if isinstance(n, (ast.FunctionDef, ast.AsyncFunctionDef, ast.ClassDef, ast.Lambda)):
+            continue
+        stack.extend(ast.iter_child_nodes(n))
+
+
+def _names_of(fn):
+    a = fn.args
+    params = [x.arg for x in a.posonlyargs + a.args + a.kwonlyargs] + ([a.vararg.arg] if a.vararg else []) + ([a.kwarg.arg] if a.kwarg else [])
+    stores = sorted(((n.lineno, n.col_offset, n.id) for n in _own_nodes(fn) if isinstance(n, ast.Name) and isinstance(n.ctx, ast.Store)), key=lambda t: (t[0], t[1]))
+    locs = []
+    for _, _, name in stores:
+        if name not in locs and name not in params:
+            locs.append(name)
+    return params, locs
+
+
+def function_vocab(tree: ast.Module) -> dict:
+    voc = {}
+    for q, fn in _functions(tree):
+        if q in voc:
+            continue  # overloaded name (e.g. property getter/setter): first one only
+        p, l = _names_of(fn)
+        voc[q] = {"params": p, "locals": l}
+    return voc
+
+
+_VOCAB = None
+
+
+def _vocab():
+    global _VOCAB
+    if _VOCAB is None:
+        import json
+        import os
+
+        p = os.path.join(os.path.dirname(__file__), "vocab.json")
+        try:
+            _VOCAB = json.load(open(p))
+        except Exception:
+            _VOCAB = {}
+    return _VOCAB
+
+
+def _unrename(tree: ast.Module, rel: str):
+    """Undo pure renamings of parameters / locals against the recorded vocabulary (see tools/gen_vocab.py)."""
+    voc = _vocab().get(rel)
+    if not voc:
+        return
+    seen = set()
+    for q, fn in _functions(tree):
+        if q in seen or q not in voc:
+            continue
+        seen.add(q)
+        cur_p, cur_l = _names_of(fn)
+        mapping = {}
+        for cur, ref in ((cur_p, voc[q]["params"]), (cur_l, voc[q]["locals"])):
+            if len(cur) != len(ref):
+                continue
+            all_cur = set(cur_p) | set(cur_l)
+            all_ref = set(voc[q]["params"]) | set(voc[q]["locals"])
+            for c, r in zip(cur, ref):
+                if c != r and c not in all_ref and r not in all_cur:
+                    mapping[c] = r
+        if not mapping:
+            continue
+        for n in _own_nodes(fn):
+            if isinstance(n, ast.Name) and n.id in mapping:
+                n.id = mapping[n.id]
+            elif isinstance(n, ast.arg) and n.arg in mapping:
+                n.arg = mapping[n.arg]
+            elif isinstance(n, ast.keyword) and False:
+                pass
+        for a in fn.args.posonlyargs + fn.args.args + fn.args.kwonlyargs + ([fn.args.vararg] if fn.args.vararg else []) + ([fn.args.kwarg] if fn.args.kwarg else []):
+            if a.arg in mapping:
+                a.arg = mapping[a.arg]
+        # names captured by nested functions / lambdas / comprehension scopes of this function
+        for n in ast.walk(fn):
+            if isinstance(n, ast.Name) and n.id in mapping and isinstance(n.ctx, ast.Load):
+                n.id = mapping[n.id]
+
+
+def canonicalise(tree: ast.Module, rel: str = None) -> ast.Module:
+    if rel is not None:
+        _unrename(tree, rel)
     tree = _Canon().visit(tree)
     ast.fix_missing_locations(tree)
     return tree
